@@ -55,9 +55,16 @@ def plans(draw):
     kind = draw(st.sampled_from(['reset', 'reset', 'silent'])) if stack == 'thriftmux' else 'reset'
     phases.append([start, start + dur, kind])
     t = start + dur
-  end = t + (res[1] + 8) * 1000
-  close_at = draw(st.one_of(st.none(), st.integers(1000, end)))
-  return {'seed': draw(st.integers(0, 2 ** 16)), 'stack': stack, 'balancer': balancer, 'resurrector': res,
+  stagger = draw(st.sampled_from([0, 0, 7000, 20000])) if (nports > 1 and balancer == 'heap' and len(phases) == 1) else 0
+  stagger_order = draw(st.sampled_from(['asc', 'desc']))
+  end = t + (res[1] + 8) * 1000 + stagger * (nports - 1) + (70 * period if stagger else 0)
+  close_at = draw(st.one_of(st.none(), st.none(), st.integers(1000, end)))
+  refuse_delay = draw(st.sampled_from([None, None, 400, 900]))
+  close_on_connect = None
+  if refuse_delay and close_at is None and draw(st.booleans()):
+    close_on_connect = {'nth': draw(st.integers(1, 6)), 'delay_ms': draw(st.sampled_from([50, 200, refuse_delay - 50]))}
+  return {'stagger_ms': stagger, 'stagger_order': stagger_order, 'refuse_delay_ms': refuse_delay,
+          'close_on_connect': close_on_connect,'seed': draw(st.integers(0, 2 ** 16)), 'stack': stack, 'balancer': balancer, 'resurrector': res,
           'ports': ports, 'period_ms': period, 'phases': phases, 'end_ms': end, 'close_at': close_at,
           'pool_max': draw(st.sampled_from([None, 1, 2])) if stack == 'thrift' else None}
 
@@ -68,10 +75,15 @@ def strategy(tier):
 
 def to_world(plan):
   servers = {}
+  order = list(plan['ports'])
+  if plan.get('stagger_order') == 'desc':
+    order.reverse()
   for p in plan['ports']:
     tl = []
-    sp = {'connect': [], 'requests': [], 'timeline': tl}
+    sp = {'connect': [], 'requests': [], 'timeline': tl, 'refuse_delay_ms': plan.get('refuse_delay_ms')}
+    lag = plan.get('stagger_ms', 0) * order.index(p)
     for start, stop, kind in plan['phases']:
+      stop = stop + lag
       if start == 0 and kind == 'refuse':
         sp['initially_down'] = True
         tl.append([stop, 'up'])
@@ -96,6 +108,7 @@ def to_world(plan):
       'timeout_ms': T_MS, 'wait_open': True,
       'serverset': {'kind': 'uri', 'initial': plan['ports'], 'events': []},
       'servers': servers, 'calls': calls, 'run_ms': plan['end_ms'] + 1000, 'close_at': plan['close_at'],
+      'close_on_connect': plan.get('close_on_connect'),
   }
 
 
@@ -163,15 +176,10 @@ def execute(plan):
           if r.first and r.first[1] == 'error':
             observed = r.first[0] + 0.001
             break
-      # (a1) no call waits while everything is down (after the fault can be noticed)
-      if kind != 'silent':
-        for r in during:
-          if r.first is None or r.first[0] - r.issued_at > 0.005:
-            raise Violation(ID, 'waits-while-down', 'call %d issued at %.0f ms while every endpoint is down (down %.0f..%.0f ms) %s' % (
-                r.id, ms(r.issued_at), start_ms, stop_ms,
-                'never completed' if r.first is None else 'completed after %.1f ms (%s)' % ((r.first[0] - r.issued_at) * 1000, r.first[1])))
-      # (a2) fail-fast error once observed, until a connect is accepted.  A serial connection only notices that its
-      # peer is gone at its next use, so each endpoint may hand out one raw connection error first.
+      # (a) while everything is down: once an endpoint is known to be down, calls routed to it fail at once with
+      # FailedFastError.  "Known" needs one contact per endpoint: a serial connection notices the reset at its next
+      # use (one raw connection error), and an endpoint without a live connection is first contacted by the request
+      # that makes the balancer open it (that request waits for the connect, at most until its own deadline).
       if kind != 'silent':
         first_accept = min([t for p in ports for (t, ok) in connects[p] if ok and t > D + 0.01] + [float('inf')])
         live_at_D = set()
@@ -183,9 +191,16 @@ def execute(plan):
           elif k2 in ('close', 'peer_reset', 'peer_eof'):
             live_at_D.discard(c2)
         never_connected = [p for p in ports if not [c for c in live_at_D if by_cid[c][1] == p]]
-        # first contact with an endpoint that is unreachable at its first connect also yields one raw error
-        allowed_raw = len(ports) if plan['stack'] == 'thrift' else len(never_connected)
-        raw = 0
+        allowed = len(ports) if plan['stack'] == 'thrift' else len(never_connected)
+        used = 0
+        # connect attempts and how long each took: (start, end)
+        inflight = []
+        starts_ = {}
+        for sq, t, k2, c2, _ in net.log:
+          if k2 == 'connect':
+            starts_[c2] = t
+          elif k2 in ('connected', 'refused', 'connect_timeout') and c2 in starts_:
+            inflight.append((starts_.pop(c2), t))
         for r in during:
           if r.issued_at >= first_accept - 0.002:
             continue
@@ -194,12 +209,18 @@ def execute(plan):
           ct, k, payload, _ = r.first
           if k == 'value':
             raise Violation(ID, 'success-while-down', 'call %d succeeded at %.0f ms while every endpoint was down' % (r.id, ms(ct)))
-          if k == 'error' and is_failfast(payload):
+          fast = ct - r.issued_at <= 0.005
+          if k == 'error' and is_failfast(payload) and fast:
             continue
-          raw += 1
-          if k != 'error' or raw > allowed_raw:
-            raise Violation(ID, 'not-fail-fast-error', 'call %d issued at %.0f ms (every endpoint down %.0f..%.0f ms; %d earlier calls already got a raw connection error, %d endpoints) failed with %s instead of FailedFastError' % (
-                r.id, ms(r.issued_at), start_ms, stop_ms, raw - 1, len(ports), (repr(payload)[:160])))
+          if not fast and [1 for (t0_, t1_) in inflight if t0_ - 0.001 <= ct and r.issued_at <= t1_ + 0.001]:
+            continue      # it was waiting for a connect attempt whose outcome was not known yet
+          used += 1
+          if used > allowed:
+            if not fast:
+              raise Violation(ID, 'waits-while-down', 'call %d issued at %.0f ms while every endpoint is down (down %.0f..%.0f ms) completed after %.1f ms (%s); %d first contacts were already accounted for (%d endpoints)' % (
+                  r.id, ms(r.issued_at), start_ms, stop_ms, (ct - r.issued_at) * 1000, k, used - 1, len(ports)))
+            raise Violation(ID, 'not-fail-fast-error', 'call %d issued at %.0f ms (every endpoint down %.0f..%.0f ms; %d earlier calls already were first contacts, %d endpoints) failed with %s instead of FailedFastError' % (
+                r.id, ms(r.issued_at), start_ms, stop_ms, used - 1, len(ports), (repr(payload)[:160])))
       # (b) spacing of reconnect attempts while down.  A retry sequence starts when an endpoint's resurrector
       # announces it ("Attempting to reopen faulted channel", logged once per fault) and consists of the refused
       # connects to that endpoint that follow, until it reopens or the phase ends.
@@ -258,6 +279,24 @@ def execute(plan):
             if first_ok < r.issued_at < horizon - 0.35 and (r.first is None or r.first[1] != 'value'):
               raise Violation(ID, 'fails-after-recovery', 'call %d issued at %.1f s failed (%s) although the client had recovered at %.1f s' % (
                   r.id, ms(r.issued_at) / 1000.0, repr(r.first[2])[-120:] if r.first else None, ms(first_ok) / 1000.0))
+    # (c2) staggered recovery (heap balancer): every endpoint is used again once it is reachable
+    if plan.get('stagger_ms') and close_t is None:
+      order = list(ports)
+      if plan.get('stagger_order') == 'desc':
+        order.reverse()
+      stop_ms = plan['phases'][0][1]
+      for p in ports:
+        R_p = base + (stop_ms + plan['stagger_ms'] * order.index(p)) / 1000.0
+        bound = R_p + max_w + 1.0 + 60 * period
+        if bound > tr.end - 1.0:
+          continue
+        peer = tr.peers[p]
+        log = peer.requests if hasattr(peer, 'requests') else [f for f in peer.frames if f.get('k') is not None]
+        got = [q['t'] for q in log if R_p <= q['t'] <= bound]
+        if not got:
+          raise Violation(ID, 'endpoint-not-used-again', 'endpoint %d reachable again at %.1f s received no request by %.1f s (other endpoints recovered at other times; heap balancer)' % (
+              p, ms(R_p) / 1000.0, ms(bound) / 1000.0))
+        flags.add('staggered_recovery_observed')
     # values are echoes
     for r in calls:
       if r.first and r.first[1] == 'value' and r.first[2] not in [echo(p, 'hi', r.arg) for p in ports]:
